@@ -275,7 +275,8 @@ def run(tier, seed):
     rb = [(sp, dict(o, resume_from=k, resume_via_json=how)) for sp, o in [it for it in fe if it[1]["rule"] == "TSLACK"][:: (9 if tier == "quick" else 3)] for k in (1, 2) for how in (True, "same")]
     colb.merge(stepcheck.explore(rb, [mon_feasible], 0, 0, seed=seed))  # a checkpoint read back (new object / same object) before the run goes on
     colb.merge(engines.fanout(history_items(tier), work_history, seed=seed))
-    sc = [(sp, dict(o, max_time=o["max_time"] + 30)) for sp, o in F.scale_items(("TSLACK", "SPT")) if sp["label"] in ("scale:wide12", "scale:wide12-6workers", "scale:layers3x4", "scale:seven-predecessors", "scale:8components")
+    sc = [(sp, dict(o, max_time=o["max_time"] + 30)) for sp, o in F.scale_items(("TSLACK", "SPT")) if sp["label"] in ("scale:wide12", "scale:wide12-6workers", "scale:layers3x4", "scale:seven-predecessors", "scale:8components", "scale:ten-predecessors", "scale:nine-successors",
+                                                                                                          "scale:ambiguous-ids-workers", "scale:ambiguous-ids-teams", "scale:queue-of-nine")
           and not o.get("res_absence")]
     colb.merge(stepcheck.explore(sc, [mon_feasible], 0, 0, seed=seed))  # medium-sized feasible models
     inf = infeasible_items(tier)
